@@ -14,8 +14,25 @@ pub fn corpus_dir() -> String {
   std::env::var("VERIF_CORPUS").unwrap_or_else(|_| "/verif/corpus".to_string())
 }
 
+/// All languages, optionally narrowed by VERIF_LANGS ("Swift,Go" keeps only those,
+/// "-Swift,-Go" drops those). Used by the sanitizer passes to run one language per process.
 pub fn all_langs() -> Vec<SupportLang> {
-  SupportLang::all_langs().to_vec()
+  let all = SupportLang::all_langs().to_vec();
+  let Ok(f) = std::env::var("VERIF_LANGS") else { return all };
+  let items: Vec<&str> = f.split(',').map(|s| s.trim()).filter(|s| !s.is_empty()).collect();
+  if items.is_empty() {
+    return all;
+  }
+  let neg: Vec<&str> = items.iter().filter_map(|s| s.strip_prefix('-')).collect();
+  let pos: Vec<&str> = items.iter().filter(|s| !s.starts_with('-')).cloned().collect();
+  all
+    .into_iter()
+    .filter(|l| {
+      let n = lang_name(*l);
+      (pos.is_empty() || pos.iter().any(|p| p.eq_ignore_ascii_case(&n)))
+        && !neg.iter().any(|p| p.eq_ignore_ascii_case(&n))
+    })
+    .collect()
 }
 
 pub fn lang_name(l: SupportLang) -> String {
